@@ -28,6 +28,7 @@ def spec(pid, check_fn, codes, manifest_text, technique="certified closure (kern
         case_type="conn_case", check_fn=check_fn,
         drivers=[dict(bin="shipdrv", args=["-prop", "conn"], n_quick=1500, n_thorough=30000, timeout=2400)],
         codes=codes, rule=RULE, trusted=TRUSTED,
+        search=dict(driver=0, variants=True, max_seeds=8, more=4000),
         assumptions=["setState's arm/stop table and the waiting thresholds are regenerated from ship/handshake.go and ship/types.go (gen/ConnTable.v)"],
         manifest=dict(
             text=manifest_text,
